@@ -67,16 +67,24 @@ int parse_ifdef_ignore(AsmContext *asm_context, int ignore_section)
 {
   if (ignore_section == 1)
   {
-    if (ifdef_ignore(asm_context) == 2)
+    int n = ifdef_ignore(asm_context);
+
+    if (n == -1) { return -1; }
+
+    if (n == 2)
     {
-      asm_context->assemble();
+      if (asm_context->assemble() == -1) { return -1; }
     }
   }
     else
   {
-    if (asm_context->assemble() == 2)
+    int n = asm_context->assemble();
+
+    if (n == -1) { return -1; }
+
+    if (n == 2)
     {
-      ifdef_ignore(asm_context);
+      if (ifdef_ignore(asm_context) == -1) { return -1; }
     }
   }
 
@@ -112,7 +120,7 @@ int parse_ifdef(AsmContext *asm_context, int ifndef)
     if (ifndef == 0) { ignore_section = 1; }
   }
 
-  parse_ifdef_ignore(asm_context, ignore_section);
+  if (parse_ifdef_ignore(asm_context, ignore_section) != 0) { return -1; }
 
   asm_context->ifdef_count--;
 
@@ -131,14 +139,7 @@ int parse_if(AsmContext *asm_context)
 
   if (num == -1) { return -1; }
 
-  if (num != 0)
-  {
-    parse_ifdef_ignore(asm_context, 0);
-  }
-    else
-  {
-    parse_ifdef_ignore(asm_context, 1);
-  }
+  if (parse_ifdef_ignore(asm_context, num != 0 ? 0 : 1) != 0) { return -1; }
 
   asm_context->ifdef_count--;
 
